@@ -26,9 +26,7 @@ func Setup(ctx context.Context, cfg *Veth, netNS ns.NetNS) error {
 		if err != nil {
 			return err
 		}
-	}
-
-	if _, ok := err.(netlink.LinkNotFoundError); !ok {
+	} else if _, ok := err.(netlink.LinkNotFoundError); !ok {
 		return err
 	}
 	contLinkName, err := ip.RandomVethName()
